@@ -311,7 +311,7 @@ def main():
         RELEVANT = {"consts": {"C06", "C11", "C05"}, "structure": {"C13", "C14"}, "abi": {"C15", "C07", "C04"},
                     "fns-nanbox": {"C06", "C11"}, "fns-logs": {"C05"}, "fns-state": {"C03", "C02"},
                     "markers": {"C01", "C08", "C11"}, "writer": {"C02", "C03"},
-                    "read-entries": {"C01", "C08"}}
+                    "read-entries": {"C01", "C08"}, "deint": {"C10", "C09"}}
         rel_errors = [e for e in extract.get("errors", [])
                       if prop in RELEVANT.get(e.split(":")[0], {prop})]
         for e in rel_errors:
@@ -345,6 +345,12 @@ def main():
                     obligations.append(("translate: the trampoline's emitted glue -> Gen/Glue.lean", False, (err or out)[-600:]))
             elif cfg.get("wasm"):
                 obligations.append(("translate: the trampoline's emitted glue -> Gen/Glue.lean", True, out.strip()))
+            if wasm_ok:
+                # what the real tool insists on, adds, emits and tolerates, found by probing it
+                cand = [e[0] for e in (extract.get("abi") or {}).get("providerExports", [])]
+                rc, out, err = sh([SFW, "abi", os.path.join(LEAN, "SfVerif", "Gen", "AbiTool.lean")] + cand, timeout=600)
+                if prop in ("C15", "C07", "C04"):
+                    obligations.append(("translate: the real trampoline probed -> Gen/AbiTool.lean", rc == 0, (out if rc == 0 else (err or out)).strip()[-400:]))
         elif cfg.get("wasm"):
             obligations.append(("wasm harness builds against /repo (tie D)", False, (err or out)[-600:]))
 
